@@ -1,6 +1,7 @@
-(* Engine data, part 4: the writers.  The text written for a well-formed tree (indented layout:
-   under the guard [lists_ok]; compact layout: always) tokenizes to exactly the token sequence of
-   the tree; with part 3 this gives  parse (write layout d) = Ok d  at any depth. *)
+(* Engine data, part 4: the writers.  The text written for a well-formed tree, in either layout,
+   tokenizes to exactly the token sequence of the tree; with part 3 this gives
+   parse (write layout d) = Ok d  at any depth.  (Before commit 073f171 the indented layout needed
+   the guard "a List written with an indent holds Dicts only": finding F-C18-2.) *)
 From Coq Require Import ZArith List Bool Lia ZifyBool.
 From PsdV Require Import Base.Prelude Engine.Model Engine.ProofsLex Engine.ProofsLeaf Engine.ProofsParse.
 Import ListNotations.
@@ -27,84 +28,15 @@ Lemma wv_list_none items : wv None (TList items) = [91] ++ flat_map witem items 
 Proof.
   cbn [wv app]. f_equal. rewrite <- app_assoc. reflexivity.
 Qed.
+Definition witem_s (k : nat) (it : tree) : list Z :=
+  match it with TDict _ => wv (Some k) it | _ => [10] ++ repeat 9 k ++ wv None it end.
 Lemma wv_list_some k items :
-  wv (Some k) (TList items) = [91] ++ flat_map (wv (Some k)) items ++ ([10] ++ repeat 9 k) ++ [93].
+  wv (Some k) (TList items) = [91] ++ flat_map (witem_s k) items ++ ([10] ++ repeat 9 k) ++ [93].
 Proof.
   cbn [wv app w_nl w_ind]. f_equal. rewrite <- !app_assoc. reflexivity.
 Qed.
 Lemma wv_leaf ind t : is_leaf t = true -> wv ind t = leaf_bytes t.
 Proof. destruct t; try discriminate; reflexivity. Qed.
-
-(* ====================================================================== the guards, unfolded *)
-Definition val_ok (ind : option nat) (v : tree) : bool :=
-  match v with
-  | TDict _ => lists_ok (inner ind) v
-  | TList items => lists_ok (list_ind ind items) v
-  | _ => true
-  end.
-Lemma lists_ok_dict ind d : lists_ok ind (TDict d) = forallb (fun kv => val_ok ind (snd kv)) d.
-Proof.
-  cbn [lists_ok]. induction d as [|[k v] r IH]; [reflexivity|].
-  cbn [forallb snd]. rewrite <- IH. unfold val_ok. destruct v; reflexivity.
-Qed.
-Lemma lists_ok_list_some k items :
-  lists_ok (Some k) (TList items) = forallb (fun it => is_dict it && lists_ok (Some k) it) items.
-Proof.
-  cbn [lists_ok]. induction items as [|it r IH]; [reflexivity|]. cbn [forallb]. rewrite <- IH. reflexivity.
-Qed.
-
-Lemma list_ind_none items : list_ind None items = None.
-Proof. unfold list_ind. destruct items as [|[] ?]; reflexivity. Qed.
-
-Lemma lists_ok_none : forall t, lists_ok None t = true.
-Proof.
-  apply tree_ind2.
-  - intros d H. rewrite lists_ok_dict. apply forallb_forall. intros kv Hin.
-    rewrite Forall_forall in H. specialize (H kv Hin). unfold val_ok.
-    destruct (snd kv) eqn:E; try reflexivity.
-    + exact H.
-    + rewrite list_ind_none. exact H.
-  - intros l _. reflexivity.
-  - intros t L. destruct t; try discriminate; reflexivity.
-Qed.
-
-Definition val_raises (ind : option nat) (v : tree) : bool :=
-  match v with
-  | TDict _ => wraises (inner ind) v
-  | TList items => wraises (list_ind ind items) v
-  | _ => false
-  end.
-Lemma wraises_dict ind d : wraises ind (TDict d) = existsb (fun kv => val_raises ind (snd kv)) d.
-Proof.
-  cbn [wraises]. induction d as [|[k v] r IH]; [reflexivity|].
-  cbn [existsb snd]. rewrite <- IH. unfold val_raises. destruct v; reflexivity.
-Qed.
-Lemma wraises_list_none items : wraises None (TList items) = existsb (wraises None) items.
-Proof. cbn [wraises]. induction items as [|it r IH]; [reflexivity|]. cbn [existsb]. rewrite <- IH. reflexivity. Qed.
-Lemma wraises_list_some k items :
-  wraises (Some k) (TList items) = existsb (fun it => no_indent_kw it || wraises (Some k) it) items.
-Proof. cbn [wraises]. induction items as [|it r IH]; [reflexivity|]. cbn [existsb]. rewrite <- IH. reflexivity. Qed.
-
-(* no TypeError under the guard *)
-Lemma no_raise : forall v ind, lists_ok ind v = true -> wraises ind v = false.
-Proof.
-  apply (tree_ind2 (fun v => forall ind, lists_ok ind v = true -> wraises ind v = false)).
-  - intros d H ind OK. rewrite lists_ok_dict in OK. rewrite wraises_dict.
-    apply not_true_is_false. intro E. apply existsb_exists in E as (kv & Hin & R).
-    rewrite Forall_forall in H. specialize (H kv Hin).
-    rewrite forallb_forall in OK. specialize (OK kv Hin).
-    unfold val_ok in OK. unfold val_raises in R. destruct (snd kv); try discriminate;
-      rewrite (H _ OK) in R; discriminate.
-  - intros l H ind OK. destruct ind as [k|].
-    + rewrite lists_ok_list_some in OK. rewrite wraises_list_some.
-      apply not_true_is_false. intro E. apply existsb_exists in E as (it & Hin & R).
-      rewrite Forall_forall in H. specialize (H it Hin).
-      rewrite forallb_forall in OK. specialize (OK it Hin). apply andb_true_iff in OK as [D OK].
-      rewrite (H _ OK) in R. destruct it; try discriminate.
-    + rewrite wraises_list_none. apply not_true_is_false. intro E. apply existsb_exists in E as (it & Hin & R).
-      rewrite Forall_forall in H. rewrite (H it Hin None (lists_ok_none it)) in R. discriminate.
-  - intros t L ind _. destruct t; try discriminate; reflexivity.
-Qed.
 
 (* ====================================================================== white space *)
 Lemma div_repeat9 k : forallb is_div (repeat 9 k) = true.
@@ -141,12 +73,13 @@ Lemma witem_hd it x : sep_start (witem it ++ x) = true.
 Proof. destruct it as [d|l|p|z|f|b|n|b]; reflexivity. Qed.
 Lemma sep_items_none items R : sep_start R = true -> sep_start (flat_map witem items ++ R) = true.
 Proof. intros S. destruct items as [|it r]; [exact S|]. cbn [flat_map]. rewrite <- app_assoc. apply witem_hd. Qed.
-Lemma sep_items_some k items R : forallb is_dict items = true -> sep_start R = true ->
-  sep_start (flat_map (wv (Some k)) items ++ R) = true.
+Lemma witem_s_hd k it x : sep_start (witem_s k it ++ x) = true.
 Proof.
-  intros D S. destruct items as [|it r]; [exact S|]. cbn [forallb] in D. apply andb_true_iff in D as [D _].
-  destruct it; try discriminate. cbn [flat_map]. rewrite wv_dict. rewrite <- !app_assoc. apply sep_w_open_some.
+  destruct it as [d|l|p|z|f|b|n|b]; try reflexivity.
+  unfold witem_s. rewrite wv_dict. rewrite <- !app_assoc. apply sep_w_open_some.
 Qed.
+Lemma sep_items_some k items R : sep_start R = true -> sep_start (flat_map (witem_s k) items ++ R) = true.
+Proof. intros S. destruct items as [|it r]; [exact S|]. cbn [flat_map]. rewrite <- app_assoc. apply witem_s_hd. Qed.
 
 (* ====================================================================== single structural tokens *)
 Lemma tok_simple ws tok k rest : forallb is_div ws = true -> clean tok = true -> classify tok = k -> k <> KBad ->
@@ -162,17 +95,15 @@ Proof. intros. apply (tok_simple [] tok k rest); try assumption. reflexivity. Qe
 
 (* ====================================================================== the main lexing lemma *)
 Definition Lexes (v : tree) : Prop :=
-  forall ind rest, wf_tree v = true -> lists_ok ind v = true -> sep_start rest = true ->
+  forall ind rest, wf_tree v = true -> sep_start rest = true ->
     tokenize (wv ind v ++ rest) = vtoks v ++ tokenize rest.
 
 Lemma lex_entries ind d : Forall (fun kv => Lexes (snd kv)) d -> wf_entries d = true ->
-  forallb (fun kv => val_ok ind (snd kv)) d = true ->
   forall R, (ind = None -> sep_start R = true) -> tokenize (wentries ind d ++ R) = etoks d ++ tokenize R.
 Proof.
-  induction 1 as [|[k v] r Hv Hr IH]; intros W OK R HR; [reflexivity|].
+  induction 1 as [|[k v] r Hv Hr IH]; intros W R HR; [reflexivity|].
   cbn [wf_entries forallb fst snd] in W. apply andb_true_iff in W as [W1 W2]. apply andb_true_iff in W1 as [N Wv].
-  cbn [forallb snd] in OK. apply andb_true_iff in OK as [OKv OK2].
-  specialize (IH W2 OK2 R HR). cbn [snd] in Hv.
+  specialize (IH W2 R HR). cbn [snd] in Hv.
   cbn [wentries flat_map etoks fst snd]. fold (wentries ind r). fold (etoks r).
   rewrite wentry_eq. rewrite <- !app_assoc.
   set (REST := wentries ind r ++ R) in *.
@@ -183,15 +114,8 @@ Proof.
     (try apply div_w_ind; try exact CL; try exact C; try discriminate; apply sep_wval).
   cbn [app]. f_equal.
   assert (TV : tokenize (wval ind v ++ w_nl ind ++ REST) = vtoks v ++ tokenize (w_nl ind ++ REST)).
-  { unfold wval. unfold val_ok in OKv. destruct v as [d'|l|p|z|f|b|n|b].
-    - apply Hv; assumption.
-    - cbn [app]. rewrite tokenize_div by reflexivity. apply Hv; assumption.
-    - cbn [app]. rewrite tokenize_div by reflexivity. apply Hv; [assumption|reflexivity|assumption].
-    - cbn [app]. rewrite tokenize_div by reflexivity. apply Hv; [assumption|reflexivity|assumption].
-    - cbn [app]. rewrite tokenize_div by reflexivity. apply Hv; [assumption|reflexivity|assumption].
-    - cbn [app]. rewrite tokenize_div by reflexivity. apply Hv; [assumption|reflexivity|assumption].
-    - cbn [app]. rewrite tokenize_div by reflexivity. apply Hv; [assumption|reflexivity|assumption].
-    - cbn [app]. rewrite tokenize_div by reflexivity. apply Hv; [assumption|reflexivity|assumption]. }
+  { unfold wval. destruct v as [d'|l|p|z|f|b|n|b];
+      try (cbn [app]; rewrite tokenize_div by reflexivity); apply Hv; assumption. }
   rewrite TV. rewrite tokenize_divs by apply div_w_nl. rewrite IH. rewrite <- ?app_assoc. reflexivity.
 Qed.
 
@@ -205,31 +129,31 @@ Proof.
   assert (TV : tokenize (witem it ++ flat_map witem r ++ R) = vtoks it ++ tokenize (flat_map witem r ++ R)).
   { unfold witem. destruct it as [d'|l|p|z|f|b|n|b];
       try (cbn [app]; rewrite tokenize_div by reflexivity);
-      apply Hv; try assumption; apply lists_ok_none. }
+      apply Hv; assumption. }
   rewrite TV, IH. reflexivity.
 Qed.
 
 Lemma lex_items_some k items : Forall Lexes items -> forallb wf_tree items = true ->
-  forallb (fun it => is_dict it && lists_ok (Some k) it) items = true ->
-  forall R, sep_start R = true -> tokenize (flat_map (wv (Some k)) items ++ R) = ltoks items ++ tokenize R.
+  forall R, sep_start R = true -> tokenize (flat_map (witem_s k) items ++ R) = ltoks items ++ tokenize R.
 Proof.
-  induction 1 as [|it r Hv Hr IH]; intros W OK R SR; [reflexivity|].
-  cbn [forallb] in W. apply andb_true_iff in W as [Wv W2].
-  cbn [forallb] in OK. apply andb_true_iff in OK as [OKv OK2]. apply andb_true_iff in OKv as [Dv OKv].
-  specialize (IH W2 OK2 R SR).
+  induction 1 as [|it r Hv Hr IH]; intros W R SR; [reflexivity|].
+  cbn [forallb] in W. apply andb_true_iff in W as [Wv W2]. specialize (IH W2 R SR).
   cbn [flat_map ltoks]. fold (ltoks r). rewrite <- !app_assoc.
-  assert (S2 : sep_start (flat_map (wv (Some k)) r ++ R) = true).
-  { apply sep_items_some; [|exact SR]. clear -OK2. induction r as [|x r IH]; [reflexivity|].
-    cbn [forallb] in *. apply andb_true_iff in OK2 as [A B]. apply andb_true_iff in A as [A _]. rewrite A. apply IH. exact B. }
-  rewrite (Hv (Some k) _ Wv OKv S2). rewrite IH. reflexivity.
+  assert (S2 : sep_start (flat_map (witem_s k) r ++ R) = true) by (apply sep_items_some; exact SR).
+  assert (TV : tokenize (witem_s k it ++ flat_map (witem_s k) r ++ R) = vtoks it ++ tokenize (flat_map (witem_s k) r ++ R)).
+  { assert (WS : forallb is_div ([10] ++ repeat 9 k) = true) by (cbn [app forallb]; rewrite div_repeat9; reflexivity).
+    unfold witem_s. destruct it as [d'|l|p|z|f|b|n|b];
+      try (rewrite <- !app_assoc; rewrite (app_assoc [10] (repeat 9 k)); rewrite tokenize_divs by exact WS);
+      apply Hv; assumption. }
+  rewrite TV, IH. reflexivity.
 Qed.
 
 Lemma lexes_all : forall v, Lexes v.
 Proof.
   apply tree_ind2.
   - (* Dict *)
-    intros d Hd ind rest W OK SR. rewrite wf_dict in W. apply andb_true_iff in W as [ND WE].
-    rewrite lists_ok_dict in OK. rewrite wv_dict, vtoks_dict. unfold w_open, w_close. rewrite <- !app_assoc.
+    intros d Hd ind rest W SR. rewrite wf_dict in W. apply andb_true_iff in W as [ND WE].
+    rewrite wv_dict, vtoks_dict. unfold w_open, w_close. rewrite <- !app_assoc.
     set (pre := match ind with Some O => [10] | _ => [] end).
     assert (SX : sep_start (w_nl ind ++ wentries ind d ++ w_ind ind ++ [62;62] ++ rest) = true).
     { apply sep_nl_rest. intros ->. apply sep_entries_none. reflexivity. }
@@ -239,22 +163,19 @@ Proof.
     rewrite (tok_simple (pre ++ w_nl ind ++ w_ind ind) [60;60] KDictStart) by
       (try exact PRE; try reflexivity; try discriminate; exact SX).
     cbn [app]. f_equal. rewrite tokenize_divs by apply div_w_nl.
-    rewrite (lex_entries ind d Hd WE OK) by (intros ->; reflexivity).
+    rewrite (lex_entries ind d Hd WE) by (intros ->; reflexivity).
     rewrite <- app_assoc. f_equal.
     change (62 :: 62 :: rest) with ([62;62] ++ rest).
     rewrite (tok_simple (w_ind ind) [62;62] KDictEnd) by
       (try apply div_w_ind; try reflexivity; try discriminate; exact SR).
     reflexivity.
   - (* List *)
-    intros l Hl ind rest W OK SR. rewrite wf_list in W. rewrite vtoks_list. destruct ind as [k|].
-    + rewrite lists_ok_list_some in OK. rewrite wv_list_some. rewrite <- !app_assoc.
-      assert (DS : forallb is_dict l = true).
-      { clear -OK. induction l as [|x r IH]; [reflexivity|]. cbn [forallb] in *.
-        apply andb_true_iff in OK as [A B]. apply andb_true_iff in A as [A _]. rewrite A. apply IH. exact B. }
+    intros l Hl ind rest W SR. rewrite wf_list in W. rewrite vtoks_list. destruct ind as [k|].
+    + rewrite wv_list_some. rewrite <- !app_assoc.
       rewrite (tok_simple0 [91] KArrStart) by
-        (first [reflexivity | discriminate | (apply sep_items_some; [exact DS|reflexivity])]).
+        (first [reflexivity | discriminate | (apply sep_items_some; reflexivity)]).
       cbn [app]. f_equal.
-      rewrite (lex_items_some k l Hl W OK) by reflexivity. rewrite <- app_assoc. f_equal.
+      rewrite (lex_items_some k l Hl W) by reflexivity. rewrite <- app_assoc. f_equal.
       change (10 :: repeat 9 k ++ 93 :: rest) with ((10 :: repeat 9 k) ++ [93] ++ rest).
       rewrite (tok_simple (10 :: repeat 9 k) [93] KArrEnd) by
         (try (cbn [forallb]; rewrite div_repeat9; reflexivity); try reflexivity; try discriminate; exact SR).
@@ -268,15 +189,14 @@ Proof.
       rewrite (tok_simple [32] [93] KArrEnd) by (try reflexivity; try discriminate; exact SR).
       reflexivity.
   - (* leaves *)
-    intros t L ind rest W _ SR. rewrite wf_leaf_tree in W by exact L.
+    intros t L ind rest W SR. rewrite wf_leaf_tree in W by exact L.
     rewrite wv_leaf, vtoks_leaf by exact L. cbn [app]. apply leaf_lex; assumption.
 Qed.
 
 (* ====================================================================== tokens of the written text *)
-Theorem tokens_of_indented d : wf_tree (TDict d) = true -> lists_ok (Some O) (TDict d) = true ->
-  tokenize (wv (Some O) (TDict d)) = vtoks (TDict d).
+Theorem tokens_of_indented d : wf_tree (TDict d) = true -> tokenize (wv (Some O) (TDict d)) = vtoks (TDict d).
 Proof.
-  intros W OK. pose proof (lexes_all (TDict d) (Some O) [] W OK eq_refl) as H.
+  intros W. pose proof (lexes_all (TDict d) (Some O) [] W eq_refl) as H.
   rewrite !app_nil_r in H. exact H.
 Qed.
 
@@ -284,40 +204,40 @@ Theorem tokens_of_compact d : wf_tree (TDict d) = true -> tokenize (wentries Non
 Proof.
   intros W. rewrite wf_dict in W. apply andb_true_iff in W as [ND WE].
   pose proof (lex_entries None d) as H.
-  rewrite <- (app_nil_r (wentries None d)). rewrite H; [apply app_nil_r| |exact WE| |reflexivity].
-  - apply Forall_forall. intros kv _. apply lexes_all.
-  - rewrite <- lists_ok_dict. apply lists_ok_none.
+  rewrite <- (app_nil_r (wentries None d)). rewrite H; [apply app_nil_r| |exact WE|reflexivity].
+  apply Forall_forall. intros kv _. apply lexes_all.
 Qed.
 
 (* ====================================================================== the round trip *)
-Theorem parse_write_indented d : wf_tree (TDict d) = true -> lists_ok (Some O) (TDict d) = true ->
+Theorem parse_write_indented d : wf_tree (TDict d) = true ->
   exists bs, write Indented d = Ok bs /\ parse bs = Ok d.
 Proof.
-  intros W OK. exists (wv (Some O) (TDict d)). split.
-  - unfold write. rewrite (no_raise _ _ OK). reflexivity.
-  - unfold parse. rewrite tokens_of_indented by assumption. apply parse_tokens_container. exact W.
+  intros W. exists (wv (Some O) (TDict d)). split; [reflexivity|].
+  unfold parse. rewrite tokens_of_indented by assumption. apply parse_tokens_container. exact W.
 Qed.
 
 Theorem parse_write_compact d : wf_tree (TDict d) = true ->
   exists bs, write Compact d = Ok bs /\ parse bs = Ok d.
 Proof.
-  intros W. exists (wentries None d). split.
-  - unfold write. rewrite (no_raise _ _ (lists_ok_none (TDict d))). reflexivity.
-  - unfold parse. rewrite tokens_of_compact by assumption. apply parse_tokens_bare. exact W.
+  intros W. exists (wentries None d). split; [reflexivity|].
+  unfold parse. rewrite tokens_of_compact by assumption. apply parse_tokens_bare. exact W.
 Qed.
 
 (* what was written is rewritten unchanged after being read (fixture blobs, the embedded engine data of a type layer) *)
 Theorem rewrite_unchanged ly d bs : wf_tree (TDict d) = true ->
-  (ly = Indented -> lists_ok (Some O) (TDict d) = true) ->
   write ly d = Ok bs ->
   match parse bs with Ok d' => write ly d' | Err e => Err e end = Ok bs.
 Proof.
-  intros W OK HW. destruct ly.
-  - destruct (parse_write_indented d W (OK eq_refl)) as (bs' & H1 & H2).
+  intros W HW. destruct ly.
+  - destruct (parse_write_indented d W) as (bs' & H1 & H2).
     rewrite HW in H1. inversion H1; subst bs'. rewrite H2. exact HW.
   - destruct (parse_write_compact d W) as (bs' & H1 & H2).
     rewrite HW in H1. inversion H1; subst bs'. rewrite H2. exact HW.
 Qed.
+
+(* the writers never fail *)
+Theorem write_total ly d : exists bs, write ly d = Ok bs.
+Proof. destruct ly; eexists; reflexivity. Qed.
 
 (* the string token is found whole, whatever follows it *)
 Theorem string_token_found p rest :
